@@ -244,6 +244,16 @@ func init() {
 			r.h.noteStub(name)
 			return nil
 		},
+		zz + "Tabulate": func(r *Run, fn *ssa.Function, a []Value) Value {
+			name := strArg(a[0])
+			target := r.eng.lookupFunc(name)
+			if target == nil {
+				panic(&pathEnd{kind: "anchor-missing", msg: "Tabulate target not found: " + name})
+			}
+			r.tabulate[target] = true
+			r.h.noteStub(name + ": pure function of one small integer, evaluated concretely for every argument value and used as a table")
+			return nil
+		},
 		zz + "Bound":      func(r *Run, fn *ssa.Function, a []Value) Value { r.h.noteBound(strArg(a[0]), strArg(a[1])); return nil },
 		zz + "Assumption": func(r *Run, fn *ssa.Function, a []Value) Value { r.h.noteAssumption(strArg(a[0])); return nil },
 		zz + "Stub":       func(r *Run, fn *ssa.Function, a []Value) Value { r.h.noteStub(strArg(a[0])); return nil },
